@@ -117,7 +117,8 @@ CHECKS = {
              "weights and ranges symbolic; output values, fuzzy outputs and rule degrees must equal a reference interpreter of the "
              "statement evaluated on the generating skeleton (SMT query decided by congruence), with each rule/block/variable disabled in "
              "turn. Registered terms/norms/defuzzifiers are then checked against their documented formulas on fixed skeletons.",
-        note=NOTE_R + "Skeletons from a bounded seeded family; General activation only (others: C08); hedged non-last conclusions excluded "
+        note=NOTE_R + "Skeletons from a bounded seeded family under General activation; same-block chains and two successive activations also under "
+             "First/Last/Highest/Lowest/Threshold (harness shared with C08); hedged non-last conclusions excluded "
              "(recorded C07 finding).",
         ref="DESIGN.md §2 C01"),
     "C10": dict(
@@ -147,7 +148,7 @@ CHECKS = {
              "of the generating tree' (decided by congruence) covers precedence, associativity, operand and hedge order, `any`, disabled "
              "variables and output-variable propositions for every operator and every degree; registered norm pairs are checked against "
              "their formulas on fixed trees.",
-        note=NOTE_R + "Texts come from a bounded seeded grammar (sizes in the evidence); arbitrary texts are C16 (not applicable).",
+        note=NOTE_R + "Texts come from a bounded seeded grammar (sizes in the evidence); arbitrary texts are C16.",
         ref="DESIGN.md §2 C06"),
     "C07": dict(
         text="Bounded symbolic verification: rules are built by the real Rule.create from enumerated consequent texts (1-3 conclusions, "
@@ -196,7 +197,9 @@ CHECKS = {
         text="Bounded symbolic verification: tsukamoto(y) of the six monotonic terms is executed with symbolic parameters, height and "
              "y in (0,h); finiteness, membership(tsukamoto(y)) == y, monotonicity and elementwise arrays are SMT queries over all "
              "reals; all other term classes must raise.",
-        note=NOTE_R + "exp/log are uninterpreted with mutual-inverse instance axioms; float closeness of the round trip is outside.",
+        note=NOTE_R + "exp/log are uninterpreted with mutual-inverse instance axioms; float closeness of the round trip is outside. "
+             "Mode F finiteness: heights >= 2^-20, degrees >= 2^-100 (relaxed, then exact encodings); Ramp additionally over ALL heights and "
+             "degrees 0 < y < h <= 1 with exact fp.mul/fp.div.",
         ref="DESIGN.md §2 C11"),
     "C04": dict(
         text="Bounded symbolic verification: for each of the 7 T-norms and 9 S-norms the real compute() is executed on symbolic "
